@@ -246,12 +246,15 @@ def dictPropToArr {ι : Type} (data : List (ι × Attrs)) (name : String) : Exce
     .ok { dtype := d, varlen := vl, rows := rows,
           missing := if (missingMask data name).any id then some (missingMask data name) else none }
 
+def namedCol {ι : Type} (data : List (ι × Attrs)) (n : String) : Except Err (String × Col) :=
+  match dictPropToArr data n with
+  | .error e => .error e
+  | .ok c => .ok (n, c)
+
 /-- `dict_props_to_arr` -/
 def dictPropsToArr {ι : Type} (data : List (ι × Attrs)) (names : List String) :
     Except Err (List (String × Col)) :=
-  mapE (fun n => do
-    let c ← dictPropToArr data n
-    return (n, c)) names
+  mapE (namedCol data) names
 
 /-! ## The in-memory geff and `write_dicts` -/
 
